@@ -850,7 +850,32 @@ fn reuse(o: &Opts, out: &mut Out, run: &mut u64) {
         // every fourth target only REFERENCES c1 (size / balance / root / call) without listing it: what an earlier
         // transaction on the same instance listed must not matter (on a fresh instance these panic ContractNotInInputs)
         let unlisted = k % 4 == 3;
-        let target = if unlisted {
+        // every fourth target allocates a little heap first and then a lot (past any capacity an earlier transaction left behind in
+        // the instance) and logs the digest of its whole heap: fresh heap memory reads as zero whatever the instance did before
+        let heap_target = k % 4 == 1;
+        // every eighth target has NO determinable owner (two coin inputs of different owners, no owner policy) and asks for it:
+        // `gm GetOwner` panics OwnerIsUnknown whatever owner the instance's previous transaction had
+        let owner_target = k % 8 == 6;
+        let target = if owner_target {
+            use fuel_asm::GMArgs;
+            use fuel_crypto::SecretKey;
+            let r = |k: u8| RegId::new(0x10 + k);
+            let code = asm(vec![op::gm_args(r(1), GMArgs::GetOwner), op::log(r(1), RegId::ZERO, RegId::ZERO, RegId::ZERO), op::ret(RegId::ONE)]);
+            let params = ConsensusParameters::standard();
+            let base = *params.base_asset_id();
+            let tx = TransactionBuilder::script(code, vec![]).script_gas_limit(100_000).max_fee_limit(0).with_params(params.clone())
+                .add_unsigned_coin_input(SecretKey::random(&mut rng), rng.gen(), 10, base, Default::default())
+                .add_unsigned_coin_input(SecretKey::random(&mut rng), rng.gen(), 10, base, Default::default())
+                .finalize();
+            let w0 = World { params, gas_price: 0, storage: tb.get_storage().clone(), block_height: u32::from(tb.get_block_height()) };
+            match checked_script(tx, &w0) { Ok(c) => c, Err(_) => continue }
+        } else if heap_target {
+            let r = |k: u8| RegId::new(0x10 + k);
+            let code = asm(vec![op::movi(r(1), 8), op::aloc(r(1)), op::movi(r(2), 4096), op::aloc(r(2)), op::aloc(r(2)),
+                                op::muli(r(4), r(2), 2), op::addi(r(4), r(4), 8), op::logd(RegId::ZERO, RegId::ZERO, RegId::HP, r(4)), op::ret(RegId::ONE)]);
+            let w0 = World { params: ConsensusParameters::standard(), gas_price: 0, storage: tb.get_storage().clone(), block_height: u32::from(tb.get_block_height()) };
+            match simple_script(&w0, &mut rng, code, vec![], 1_000_000) { Ok(c) => c, Err(_) => continue }
+        } else if unlisted {
             let r = |k: u8| RegId::new(0x10 + k);
             let probe = match k % 16 { 3 => op::csiz(r(1), r(0)), 7 => op::bal(r(1), RegId::HP, r(0)), 11 => op::croo(RegId::HP, r(0)), _ => op::call(r(0), RegId::ZERO, RegId::HP, RegId::CGAS) };
             let code = asm(vec![op::movi(r(4), 32), op::aloc(r(4)), op::gtf_args(r(0), RegId::ZERO, GTFArgs::ScriptData), probe, op::log(r(1), RegId::ZERO, RegId::ZERO, RegId::ZERO), op::ret(RegId::ONE)]);
@@ -867,10 +892,10 @@ fn reuse(o: &Opts, out: &mut Out, run: &mut u64) {
         let w = World { params: ConsensusParameters::standard(), gas_price: 0, storage: base.clone(), block_height: u32::from(tb.get_block_height()) };
         // the reused instance: history first
         let mut used = new_vm(&w);
-        let hist_n = rng.gen_range(1..4);
+        let hist_n = if heap_target { 1 } else { rng.gen_range(1..4) };   // (heap target: exactly one predecessor, with a small dirty heap)
         let mut hist_desc = vec![];
         for h in 0..hist_n {
-            let kind = if unlisted && h == 0 { 0 } else { rng.gen_range(0..4) };
+            let kind = if unlisted && h == 0 { 0 } else if heap_target { 4 } else { rng.gen_range(0..5) };
             let checked = match kind {
                 0 => { // a different storage transaction on the same contract (warms the slot cache, may panic / revert)
                     let (_, _, sc2, _) = storage_tx(&mut rng, 999 + h);
@@ -878,6 +903,13 @@ fn reuse(o: &Opts, out: &mut Out, run: &mut u64) {
                 }
                 1 => simple_script(&w, &mut rng, asm(vec![op::movi(RegId::new(0x10), 0x3ffff), op::aloc(RegId::new(0x10)), op::aloc(RegId::new(0x10)), op::sb(RegId::HP, RegId::ONE, 0), op::cfei(0xffff), op::sw(RegId::SSP, RegId::ONE, 100), op::ret(RegId::ONE)]), vec![], 1_000_000).ok(),
                 2 => { let code = gen_program(&mut rng); let d = rbytes(&mut rng, 16); simple_script(&w, &mut rng, code, d, 3000).ok() }
+                4 => { // a small heap, completely dirty
+                    let r = |k: u8| RegId::new(0x10 + k);
+                    let mut p = vec![op::movi(r(1), 1024), op::aloc(r(1)), op::not(r(2), RegId::ZERO)];
+                    for j in 0..128u16 { p.push(op::sw(RegId::HP, r(2), j)); }
+                    p.push(op::ret(RegId::ONE));
+                    simple_script(&w, &mut rng, asm(p), vec![], 1_000_000).ok()
+                }
                 _ => simple_script(&w, &mut rng, asm(vec![op::sw(RegId::ZERO, RegId::ONE, 0)]), vec![], 1000).ok(),
             };
             if let Some(c) = checked { hist_desc.push(kind); let _ = run_plain(&mut used, &w, c); }
@@ -889,7 +921,7 @@ fn reuse(o: &Opts, out: &mut Out, run: &mut u64) {
         let ref_run = *run;
         out.ev(json!({"ev": "Seg"}));
         let mut fresh = new_vm(&w2);
-        let extra = json!({"driver": "reuse", "contracts": contracts_json(&start, &[c1], &watch), "inputs": if unlisted { json!([]) } else { json!([hx(c1)]) }});
+        let extra = json!({"driver": "reuse", "contracts": contracts_json(&start, &[c1], &watch), "inputs": if unlisted || heap_target || owner_target { json!([]) } else { json!([hx(c1)]) }});
         record_run_with(out, ref_run, &mut fresh, &w2, target.clone(), extra, 20_000, Some(&post));
         // reused interpreter
         match run_plain(&mut used, &w2, target.clone()) {
